@@ -436,3 +436,21 @@ func dumpCase(expr, indent string, level int) (req, ans string) {
 	}
 	return req, "ok " + hx(buf.String())
 }
+
+// evalErrText: the text of the error Evaluate returns ("" for none, "<create>" when creation fails)
+func evalErrText(opts []OptSpec, expr string, datum interface{}) (txt string) {
+	defer func() {
+		if r := recover(); r != nil {
+			txt = "<panic>"
+		}
+	}()
+	ev, _ := create(expr, opts)
+	if ev == nil {
+		return "<create>"
+	}
+	_, err := ev.Evaluate(datum)
+	if err == nil {
+		return ""
+	}
+	return err.Error()
+}
